@@ -47,11 +47,30 @@ func forallIn(lo, hi int, f func(int) bool) bool {
 //@   modifies l.nInInterests, l.nInData, l.partialMessageStore[*], all([][]byte)
 //@   loop 1 invariant [source-intact] len(fragment) > 1 ==> forallIn(0, len(fragment), func(j int) bool { return sliceArr(fragment[j]) != sliceArr(wire) })
 
+// Receiver, per call (C10): a packet is returned only when every fragment slot of its base sequence is filled; the
+// pieces returned are exactly the stored slots in index order (the slot of this call holds the joined fragment just
+// stored); the entry of that base sequence is then deleted; entries of other base sequences are never touched (neither
+// removed nor replaced), whatever the call does; fragments with impossible or inconsistent FragIndex/FragCount are
+// refused without any change.
+//
 //@ func (*NDNLPLinkService).reassemblePacket
+//@   option heap-closedness
 //@   requires l.partialMessageStore != nil && frame != nil
 //@   modifies l.partialMessageStore[*], all([][]byte)
-//@   loop 1 invariant receivedCount >= 0 && receivedCount <= rangeindex+1
-//@   loop 2 invariant len(reassembled) == len(l.partialMessageStore[baseSequence])
+//@   ensures [others] forall(func(k uint64) bool { return k != baseSequence ==> mapHas(l.partialMessageStore, k) == old(mapHas(l.partialMessageStore, k)) && len(l.partialMessageStore[k]) == old(len(l.partialMessageStore[k])) && sliceArr(l.partialMessageStore[k]) == old(sliceArr(l.partialMessageStore[k])) && sliceOff(l.partialMessageStore[k]) == old(sliceOff(l.partialMessageStore[k])) })
+//@   ensures [refuse-range] fragIndex >= fragCount || fragCount > 8800 ==> result == nil && mapHas(l.partialMessageStore, baseSequence) == old(mapHas(l.partialMessageStore, baseSequence)) && len(l.partialMessageStore[baseSequence]) == old(len(l.partialMessageStore[baseSequence])) && sliceArr(l.partialMessageStore[baseSequence]) == old(sliceArr(l.partialMessageStore[baseSequence]))
+//@   ensures [refuse-count] old(mapHas(l.partialMessageStore, baseSequence)) && uint64(old(len(l.partialMessageStore[baseSequence]))) != fragCount ==> result == nil && mapHas(l.partialMessageStore, baseSequence) && len(l.partialMessageStore[baseSequence]) == old(len(l.partialMessageStore[baseSequence])) && sliceArr(l.partialMessageStore[baseSequence]) == old(sliceArr(l.partialMessageStore[baseSequence]))
+//@   ensures [complete-count] result != nil ==> uint64(len(result)) == fragCount
+//@   ensures [complete-filled] result != nil ==> forallIn(0, len(result), func(i int) bool { return len(result[i]) != 0 })
+//@   ensures [deleted] result != nil ==> !mapHas(l.partialMessageStore, baseSequence)
+//@   ensures [pieces] result != nil && old(mapHas(l.partialMessageStore, baseSequence)) ==> forallIn(0, len(result), func(i int) bool { return uint64(i) != fragIndex ==> sameSlice(result[i], old(l.partialMessageStore[baseSequence][i])) })
+//@   ensures [pending] result == nil && fragIndex < fragCount && fragCount <= 8800 && (!old(mapHas(l.partialMessageStore, baseSequence)) || uint64(old(len(l.partialMessageStore[baseSequence]))) == fragCount) ==> mapHas(l.partialMessageStore, baseSequence) && uint64(len(l.partialMessageStore[baseSequence])) == fragCount
+//@   loop 1 invariant receivedCount >= 0 && receivedCount <= rangeindex+1 && uint64(len(l.partialMessageStore[baseSequence])) == fragCount && fragCount <= 8800
+//@   loop 1 invariant receivedCount == rangeindex+1 ==> forallIn(0, rangeindex+1, func(i int) bool { return len(l.partialMessageStore[baseSequence][i]) != 0 })
+//@   loop 2 invariant len(reassembled) == len(l.partialMessageStore[baseSequence]) && fresh(reassembled) && uint64(len(l.partialMessageStore[baseSequence])) == fragCount && fragCount <= 8800
+//@   loop 2 invariant forallIn(0, len(l.partialMessageStore[baseSequence]), func(i int) bool { return len(l.partialMessageStore[baseSequence][i]) != 0 })
+//@   loop 2 invariant forallIn(0, rangeindex+1, func(i int) bool { return sameSlice(reassembled[i], l.partialMessageStore[baseSequence][i]) })
+//@   loop 2 invariant forallIn(0, rangeindex+1, func(i int) bool { return len(reassembled[i]) != 0 })
 
 // ---------------------------------------------------------------------------------------
 // stream framing (C11): ghost model of the byte stream behind reader.Read
